@@ -191,6 +191,43 @@ func checkC05OneLoad(w *World, r *Report, p *Proto) {
 			if lb, lf, ok := loadedField(base); ok && lf == treeOfCtx && lb == obj {
 				okk, why = true, "returned to the owner recorded in the context (c."+treeOfCtx.Name()+")"
 			}
+			// a release helper(tree, c): judged at every call with the arguments substituted
+			if bp, isParam := base.(*ssa.Parameter); isParam && !okk {
+				if op, isParam := obj.(*ssa.Parameter); isParam {
+					bi, oi := -1, -1
+					for i, prm := range fn.Params {
+						if prm == bp {
+							bi = i
+						}
+						if prm == op {
+							oi = i
+						}
+					}
+					nCalls, allOK := 0, true
+					for _, caller := range w.FoxFuncs() {
+						eachInstr(caller, func(in2 ssa.Instruction) {
+							cs, ok := in2.(ssa.CallInstruction)
+							if !ok || staticCallee(cs) != fn || bi < 0 || oi < 0 {
+								return
+							}
+							nCalls++
+							cargs := callArgs(cs)
+							g := poolGetOf(stripIface(seeThrough(stripIface(cargs[oi]))))
+							if g == nil {
+								allOK = false
+								return
+							}
+							gb, gf, _ := fieldOfAddr(callArgs(g)[0])
+							if gf != p.PoolField || gb != cargs[bi] {
+								allOK = false
+							}
+						})
+					}
+					if nCalls > 0 && allOK {
+						okk, why = true, fmt.Sprintf("release helper: at each of its %d call(s) the context was taken from the pool of the tree passed along", nCalls)
+					}
+				}
+			}
 			ru.Check("Put in "+FuncName(fn), w.Pos(in.Pos()), "a pooled context goes back to the pool of the tree it came from", okk, why)
 		})
 	}
@@ -338,8 +375,8 @@ func (s ownerState) String() string {
 }
 
 // releaseWrappers: methods whose body puts their receiver back into a tree pool (cTx.Close).
-func (p *Proto) releaseWrappers() map[*ssa.Function]bool {
-	out := map[*ssa.Function]bool{}
+func (p *Proto) releaseWrappers() map[*ssa.Function]int {
+	out := map[*ssa.Function]int{}
 	for _, fn := range p.w.FoxFuncs() {
 		if len(fn.Params) == 0 {
 			continue
@@ -350,8 +387,12 @@ func (p *Proto) releaseWrappers() map[*ssa.Function]bool {
 				return
 			}
 			args := callArgs(site)
-			if _, f, ok := fieldOfAddr(args[0]); ok && f == p.PoolField && stripIface(args[1]) == ssa.Value(fn.Params[0]) {
-				out[fn] = true
+			if _, f, ok := fieldOfAddr(args[0]); ok && f == p.PoolField {
+				for i, prm := range fn.Params {
+					if stripIface(args[1]) == ssa.Value(prm) {
+						out[fn] = i
+					}
+				}
 			}
 		})
 	}
@@ -407,8 +448,10 @@ func checkContextOwnerAs(w *World, r *Report, p *Proto, id string) {
 				if isMethodNamed(calleeObj(site), "sync", "Pool", "Put") && len(args) == 2 && isObj(args[1]) {
 					return true, deferred
 				}
-				if c := staticCallee(site); c != nil && wrappers[c] && len(args) > 0 && isObj(args[0]) {
-					return true, deferred
+				if c := staticCallee(site); c != nil {
+					if idx, isWrapper := wrappers[c]; isWrapper && len(args) > idx && isObj(args[idx]) {
+						return true, deferred
+					}
 				}
 				return false, false
 			}
